@@ -181,6 +181,8 @@ def _c02_light(c, nl, family, n):
         return {"property": "C02", "signature": ["C02", direction, reason, "family:" + family, None, None], "what": what,
                 "engine": "pump", "family": family, "n": n, "text": c.text.decode("utf-8", "replace"), "observed": obs.brief()}
 
+    if obs.verdict == "SKIPPED":
+        return out
     if obs.verdict == "HANG":
         out.append(mk("hang", "STEPS", "family %s n=%d: %s after %d lexer steps" % (family, n, obs.exc, obs.steps)))
     elif obs.verdict == "EXC":
@@ -200,6 +202,7 @@ def _c02_light(c, nl, family, n):
 def run(tier, seed):
     tasks = PC.make_tasks(tier, seed, ORACLES, layouts=["comments"], layout_depth=1, include_noreq=True)
     results = pool.run_tasks("checks.parser_common:task", tasks)
+    results += pool.run_tasks("checks.parser_common:valid_task", PC.valid_tasks(tier, seed, ORACLES))
     cov, viols, harness = PC.assemble(results)
     # (b) byte-edit neighbourhoods
     bt = [(i, False, True) for i in range(len(CORPUS))]
